@@ -597,10 +597,21 @@ func findNode(root *Node, path string) *Node {
 	return nil
 }
 
+// pickKind draws the error value an injected fault returns: the property does not distinguish kinds, so the
+// implementation must not either (perm = fs.ErrPermission, notexist = fs.ErrNotExist: a file that vanished
+// between listing and use, other = an I/O error).
+func pickKind(r *rand.Rand) string {
+	return []string{"perm", "other", "notexist"}[r.Intn(3)]
+}
+
 func inject(root *Node, s site, kind string) {
 	n := findNode(root, s.path)
 	if n == nil {
 		return
+	}
+	if kind == "notexist" && strings.HasSuffix(s.path, ".gitignore") {
+		// a missing .gitignore is documented as "no patterns", not a fault (internal/gitignore.go)
+		kind = "other"
 	}
 	n.ErrKind = kind
 	switch s.op {
@@ -677,7 +688,7 @@ func genC09(r *rand.Rand, nBases int, pairs int, allPairs bool) []*Case {
 		for _, s := range ss {
 			fatal := r.Intn(2) == 0
 			size := []int{0, 10}[r.Intn(2)]
-			kind := []string{"perm", "other"}[r.Intn(2)]
+			kind := pickKind(r)
 			mk([]site{s}, fatal, size, kind)
 			if allPairs || r.Intn(3) == 0 {
 				mk([]site{s}, !fatal, size, kind)
@@ -685,12 +696,19 @@ func genC09(r *rand.Rand, nBases int, pairs int, allPairs bool) []*Case {
 			if allPairs {
 				mk([]site{s}, fatal, 10-size, kind)
 			}
+			// every site once more under each other error value, with fatal errors requested and the size
+			// limit on (the lazy stat only happens then): the outcome must not depend on the error value
+			for _, k2 := range []string{"perm", "other", "notexist"} {
+				if k2 != kind {
+					mk([]site{s}, true, 10, k2)
+				}
+			}
 		}
 		np := pairs
 		if allPairs {
 			for i := range ss {
 				for j := i + 1; j < len(ss); j++ {
-					mk([]site{ss[i], ss[j]}, r.Intn(2) == 0, []int{0, 10}[r.Intn(2)], []string{"perm", "other"}[r.Intn(2)])
+					mk([]site{ss[i], ss[j]}, r.Intn(2) == 0, []int{0, 10}[r.Intn(2)], pickKind(r))
 				}
 			}
 			np = 0
@@ -700,7 +718,7 @@ func genC09(r *rand.Rand, nBases int, pairs int, allPairs bool) []*Case {
 			if a == b {
 				continue
 			}
-			mk([]site{ss[a], ss[b]}, r.Intn(2) == 0, []int{0, 10}[r.Intn(2)], []string{"perm", "other"}[r.Intn(2)])
+			mk([]site{ss[a], ss[b]}, r.Intn(2) == 0, []int{0, 10}[r.Intn(2)], pickKind(r))
 		}
 	}
 	return out
@@ -1129,7 +1147,7 @@ func genMultiFaults(r *rand.Rand) *Case {
 			continue
 		}
 		s := usable[r.Intn(len(usable))]
-		inject(c.Roots[k], s, []string{"perm", "other"}[r.Intn(2)])
+		inject(c.Roots[k], s, pickKind(r))
 		notes = append(notes, fmt.Sprintf("%s:root%d/%s:%d", s.op, k, s.path, s.k))
 	}
 	c.Note = strings.Join(notes, ",")
